@@ -13,6 +13,7 @@ Direct property oracle (independent of the model): tag result == result of the e
 """
 import collections
 import collections.abc
+import functools
 import glob
 import inspect
 import itertools
@@ -37,6 +38,8 @@ T_POSONLY_KW = "c11-posonly-name-as-kwarg"           # fixed in 81cf028
 T_DUP_SPECIAL = "c11-duplicate-special-key"          # fixed in 8478320
 T_NONSTR = "c11-nonstring-spread-key"                # fixed in 87d326f: a spread mapping has a key that is not a str (None, an int, a tuple)
 T_SPREAD_KIND = "c11-spread-container-kind"          # a spread value that is a Mapping but no dict / an iterable but no list
+T_WRAPPED_CALLABLE = "c11-wrapped-callable-signature"   # render() = callable object without __code__ carrying __wrapped__ (class-based decorator)
+T_DECORATED = "c11-decorated-render"                    # render() = function decorated with functools.wraps
 T_OTHER = "c11-other"
 
 
@@ -87,7 +90,25 @@ def sig_src(sig, fname="render", obj=False):
 def make_fn(sig, out, fname="render"):
     ns = {"OUT": out}
     exec(sig_src(sig, fname), ns)
-    return ns[fname]
+    return decorate(ns[fname], sig)
+
+
+def decorate(f, sig):
+    """sig["inner"] = signature of a function that f pretends to wrap (functools.wraps / update_wrapper: __wrapped__, __name__, ...).
+    The tag CALLS f, so f's own signature is what the arguments must fit; __code__/__defaults__/__kwdefaults__ are not copied by wraps."""
+    if sig.get("inner"):
+        ns = {"OUT": []}
+        exec(sig_src(sig["inner"], "render"), ns)
+        functools.update_wrapper(f, ns["render"])
+        assert f.__wrapped__ is ns["render"]
+    return f
+
+
+def render_line(sig):
+    l = sig_src(sig).split("\n")[0]
+    if sig.get("inner"):
+        l += "   # decorated: functools.wraps of " + sig_src(sig["inner"]).split("\n")[0]
+    return l
 
 
 def make_callable_obj(sig, out):
@@ -96,7 +117,7 @@ def make_callable_obj(sig, out):
     ns = {"OUT": out}
     src = "class RenderObj:\n" + "".join("    " + l + "\n" for l in sig_src(sig, "__call__", obj=True).split("\n") if l)
     exec(src, ns)
-    o = ns["RenderObj"]()
+    o = decorate(ns["RenderObj"](), sig)
     assert not hasattr(o, "__code__")
     return o
 
@@ -490,8 +511,10 @@ class Probe:
 # ----------------------------------------------------------------------------------------------
 # direct oracle + trigger classes
 # ----------------------------------------------------------------------------------------------
-def classify(sig, call):
+def classify(sig, call, variant=None):
     es = entries_of(call)
+    if sig.get("inner"):
+        return T_WRAPPED_CALLABLE if variant == "callable" else T_DECORATED
     if any(isinstance(k, NonStr) for k, _ in es):
         return T_NONSTR
     npos = sum(1 for k, _ in es if k is None)
@@ -554,6 +577,41 @@ def rename_sig(sig, pool, lead_names=None):
     if lead_names:
         out["names"] = list(lead_names)
     return out
+
+
+INNER_KINDS = ["inject", "rename", "defaults", "generic", "specific"]
+
+
+def with_inner(sig, kind):
+    """sig + the signature of the function it is a functools.wraps-style wrapper of (what a decorator typically changes)"""
+    if kind == "inject":        # the wrapper injects a leading positional argument
+        inner = dict(sig, po=[["inj", None]] + sig["po"]) if sig["po"] else dict(sig, pk=[["inj", None]] + sig["pk"])
+    elif kind == "rename":      # the wrapper translates keyword names (colour -> color)
+        inner = dict(sig, po=[[n + "_x", d] for n, d in sig["po"]], pk=[[n + "_x", d] for n, d in sig["pk"]], ko=[[n + "_x", d] for n, d in sig["ko"]])
+    elif kind == "defaults":    # the wrapper supplies the defaults itself / the inner function has other ones
+        inner = dict(sig, po=[[n, None] for n, _ in sig["po"]], pk=[[n, None] for n, _ in sig["pk"]],
+                     ko=[[n, 77 if d is None else None] for n, d in sig["ko"]])
+    elif kind == "generic":     # a specific adapter around a generic function
+        inner = mk_sig(va="args", vk="kwargs", names=sig["names"])
+    else:                       # a generic ( *args, **kwargs pass-through ) or unrelated wrapper around a specific function
+        inner = mk_sig(pk=[["name", None], ["greeting", 7]], names=sig["names"])
+    inner = {k: v for k, v in inner.items() if k not in ("inner", "lead_defaults")}
+    return dict(sig, inner=inner)
+
+
+def decorated_calls(sig):
+    """calls for a decorated probe: everything up to length 1, the structured longer ones, and the inner function's names as keys"""
+    inner = sig["inner"]
+    for c in exhaustive_calls(sig, 1):
+        yield c
+    for c in structured_calls(sig):
+        yield c
+    for n in param_names(inner)[:2] + [x for x in (inner["va"], inner["vk"]) if x]:
+        if n not in param_names(sig):
+            yield [["kw", n, 11]]
+            yield [["pos", 11], ["kw", n, 12]]
+    yield [["pos", 11], ["pos", 12]]
+    yield [["pos", 11], ["kw", "u", 12]]
 
 
 def vary_names(sig, idx):
@@ -674,6 +732,8 @@ def random_sig(rng, maxn=5):
         s = rename_sig(s, SELFCTX_POOL, ["node", "ctx"])
     if rng.random() < 0.06 and all(d is not None for _, d in s["po"] + s["pk"]):
         s = dict(s, lead_defaults=rng.choice([[None, 801], [800, 801]]))     # defaults reaching back into self / context
+    if rng.random() < 0.15:
+        s = with_inner(s, rng.choice(INNER_KINDS))                            # render() is a functools.wraps-style wrapper
     return s
 
 
@@ -753,10 +813,10 @@ def account(chk, sig, call, kind, variant, use_code, py, tag, src, terms, meta):
     why = oracle(sig, call, py, tag)
     nt = nontrivial(sig, call, py)
     chk.count((sig_src(sig), tuple(map(repr, call))), nt, kind=kind,
-              sample={"render": sig_src(sig).split("\n")[0], "tag": src, "python": py, "tag_result": tag} if (nt and kind.startswith("random") and py[0] == "ok") else None)
+              sample={"render": render_line(sig), "tag": src, "python": py, "tag_result": tag} if (nt and kind.startswith("random") and py[0] == "ok") else None)
     if why:
-        chk.fail(classify(sig, call), why, {"kind": "tag", "sig": sig, "call": call, "template": src, "variant": variant,
-                                            "render": sig_src(sig).split("\n")[0], "python": py, "tag": tag})
+        chk.fail(classify(sig, call, variant), why, {"kind": "tag", "sig": sig, "call": call, "template": src, "variant": variant,
+                                                     "render": render_line(sig), "python": py, "tag": tag})
     terms.append(LIT.both(use_code, sig, call, py, tag))
     meta.append((sig, call, py, tag, src + " [render() built as: %s]" % variant))
 
@@ -878,6 +938,16 @@ def run(tier, seed):
             idx += 1
             jobs.append((sig, list(kind_calls(sig)), "exh-spread-kinds-n%d" % n, idx))
 
+    # ---- 1b''. DECORATED render(): functools.wraps-style wrappers whose own signature (what the tag calls) differs from the wrapped
+    #          function's; every shape n<=2 as wrapper signature, kinds of inner signature in rotation, all three ways of building the tag ----
+    for n in (0, 1, 2):
+        for sig in all_sigs(n):
+            idx += 1
+            dsig = with_inner(vary_names(sig, idx), INNER_KINDS[idx % len(INNER_KINDS)])
+            calls = list(decorated_calls(dsig))
+            for v in range(3):
+                jobs.append((dsig, calls, "decorated-%s-n%d" % (Probe.VARIANTS[v], n), v))
+
     # ---- 1c. structured, mostly valid longer calls on every shape n<=3 (n<=4 thorough), fast path and fallback ----
     for n in range(1, 5 if thorough else 4):
         for sig in all_sigs(n):
@@ -905,7 +975,7 @@ def run(tier, seed):
         for j, i in enumerate(sub):
             sig, call, py, tag, src = meta[i]
             which = "py_bind (S-model) != real Python call" if j in bad_py else "impl_bind (M-model) != tag"
-            chk.disagree(which, {"kind": "tag", "sig": sig, "call": call, "template": src, "render": sig_src(sig).split("\n")[0],
+            chk.disagree(which, {"kind": "tag", "sig": sig, "call": call, "template": src, "render": render_line(sig),
                                  "python": py, "tag": tag})
 
     lap("coq-eval-tags")
@@ -994,11 +1064,11 @@ def replay(path):
             finally:
                 p.close()
             why = oracle(sig, call, py, tag)
-            print("render:  ", sig_src(sig).split("\n")[0])
+            print("render:  ", render_line(sig))
             print("template:", src, "(render() built as: %s)" % via)
             print("python:  ", py)
             print("tag:     ", tag)
-            print("oracle:  ", why or "holds", "| class:", classify(sig, call))
+            print("oracle:  ", why or "holds", "| class:", classify(sig, call, via))
             rc = rc or (1 if why else 0)
         return rc
     if case.get("kind") == "validator" and "sig" in case:
